@@ -156,6 +156,11 @@ class Check(FormulaCheck):
             iso = a.isoformat() + 'T%02d:%02d:%02d' % (h, mi, s)
             for fn, exp in (('YEAR', a.year), ('MONTH', a.month), ('DAY', a.day), ('HOUR', h), ('MINUTE', mi), ('SECOND', s)):
                 self.chk(fn + '(iso-text)', '%s("%s")' % (fn, iso), exp)
+            if rnd.random() < 0.3 and 1901 <= a.year <= 9998:
+                # the same text with a zone designator (Z, +02:00, -0530 ...): still the components that are written
+                zone = rnd.choice(['Z', '+00:00', '+02:00', '-05:00', '+05:30', '-0330', '+1245', '-11:00', '+14:00'])
+                for fn, exp in (('YEAR', a.year), ('MONTH', a.month), ('DAY', a.day), ('HOUR', h), ('MINUTE', mi), ('SECOND', s)):
+                    self.chk(fn + '(iso-text-with-zone)', '%s("%s%s")' % (fn, iso, zone), exp)
             T = 'TIME(%d,%d,%d)' % (h, mi, s)
             self.chk('HOUR(TIME)', 'HOUR(%s)' % T, h)
             self.chk('MINUTE(TIME)', 'MINUTE(%s)' % T, mi)
